@@ -269,6 +269,20 @@ def _arr(xs):
     return None if xs is None else np.array(xs, dtype=float)
 
 
+def _container(xs, kind):
+    """the documented ArrayLike forms of a support argument: ndarray, read-only ndarray, list, tuple"""
+    if xs is None:
+        return None
+    a = np.array(xs, dtype=float)
+    if kind == "list":
+        return a.tolist()
+    if kind == "tuple":
+        return tuple(a.tolist())
+    if kind == "readonly":
+        a.flags.writeable = False
+    return a
+
+
 def _opt(xs):
     return "none" if xs is None else ql(xs)
 
@@ -520,13 +534,23 @@ def _build_rwc(inp):
     pre = []
     xaxis, alpha, nb = inp["xaxis"], inp["alpha"], inp["nb"]
 
+    # container of the support arguments (documented as ArrayLike): chosen from the case's seed
+    cont = ["array", "list", "array", "tuple", "readonly", "array"][inp["seed"] % 6]
+
     def kw():
-        return dict(fnr=_arr(inp["fnr"]), fpr=_arr(inp["fpr"]), thresholds=_arr(inp["thr"]), nb_points=nb)
+        return dict(fnr=_container(inp["fnr"], cont), fpr=_container(inp["fpr"], cont),
+                    thresholds=_container(inp["thr"], cont), nb_points=nb)
 
     np.random.seed(inp["seed"])
+    kw_main = kw()
     with common.Recorder(Scores, "bootstrap_ci") as rb, common.Recorder(roc_curve, "_apply_rule_of_three") as rr, \
             common.Recorder(roc_curve, "_aggregate_rectangles") as ra:
-        res = common.call(roc_curve.roc_with_ci, s, x_axis=xaxis, alpha=alpha, config=cfg, **kw())
+        res = common.call(roc_curve.roc_with_ci, s, x_axis=xaxis, alpha=alpha, config=cfg, **kw_main)
+    tags = tags + ("support-args=" + cont,)
+    for nm_, key_ in (("fnr", "fnr"), ("fpr", "fpr"), ("thresholds", "thr")):
+        if inp[key_] is not None and not np.array_equal(np.asarray(kw_main[nm_], dtype=float), np.array(inp[key_], dtype=float)):
+            pre.append(Issue("PROPFAIL", "raises", f"{desc}: the caller's `{nm_}` argument ({cont}) was changed from {inp[key_]} to "
+                             f"{np.asarray(kw_main[nm_]).tolist()}", sig + "/argument-mutated"))
     if res[0] == "exc":
         pre.append(Issue("PROPFAIL", "raises", f"{desc} raised {res[1]}: {res[2]}", sig + "/raises"))
         return Case(ID, inp, [], lambda outs: [], tags + ("raised",), 0, pre)
